@@ -20,6 +20,7 @@ def main():
     checks = None
     confirm = True
     wt_arg = None
+    confirm_only = False
     i = 1
     while i < len(a):
         if a[i] == '--id':
@@ -28,6 +29,8 @@ def main():
             checks = a[i + 1].split(','); i += 1
         elif a[i] == '--skip-confirm':
             confirm = False
+        elif a[i] == '--confirm-only':
+            confirm_only = True
         elif a[i] == '--wt':
             wt_arg = a[i + 1]; i += 1
         i += 1
@@ -65,6 +68,14 @@ def main():
         print("confirm:", meta['confirmed'])
         if not (ok_existing and demo_fails_with and demo_passes_without):
             print(o1[-600:], o2[-900:], o3[-600:])
+    if confirm_only:
+        json.dump(meta, open(os.path.join(dst, 'meta.json'), 'w'), indent=1)
+        return
+    if not confirm and os.path.exists(os.path.join(dst, 'meta.json')):
+        old = json.load(open(os.path.join(dst, 'meta.json')))
+        for k in ('confirmed', 'ran'):
+            if k in old:
+                meta[k] = old[k]
     # apply to /repo, run checks, revert
     rc, o = sh("git -C /repo status --porcelain")
     if o.strip():
